@@ -57,7 +57,7 @@ def gen_case(seed, tier="quick"):
     nsteps = rng.choice((1, 2, 4, 6, 10)) if tier == "quick" else rng.choice((2, 4, 8, 16, 24))
     steps = []
     allg = {2: ["x", "y", "rho", "phi"], 3: ["z", "theta", "eta"], 4: ["t", "tau"]}
-    kinds = ["table", "get", "to", "op", "index"]
+    kinds = ["table", "get", "to", "op", "index", "close"]
     if be in ("obj", "sym"):
         kinds += ["set", "set", "iop"]
     if be == "np":
@@ -95,11 +95,26 @@ def gen_case(seed, tier="quick"):
                 st["kwg"][tmp_g] = v
                 st["kwm"][tmp_m] = v
             steps.append(st)
+        elif k == "close":
+            # closeness predicates against a *slightly* different partner (tolerance formulas matter there)
+            st_c = {"s": "op", "name": rng.choice(("close:isclose", "close:allclose", "close:np.isclose", "close:np.allclose")),
+                    "eps": rng.choice((1e-9, 3e-6, 8e-6, 1.2e-5, 3e-5, 1e-3)), "kw": {}}
+            if rng.random() < 0.4:
+                st_c["kw"] = {"rtol": rng.choice((1e-7, 1e-5, 1e-3)), "atol": rng.choice((0.0, 1e-8, 1e-4))}
+            steps.append(st_c)
         elif k == "op":
             name = rng.choice(("unit", "add", "subtract", "scale", "dot", "deltaphi", "rotateZ", "equal", "isclose", "neg2D", "to_Vector2D", "to_Vector3D", "to_Vector4D",
                                "py:abs", "py:neg", "py:pow", "py:mul", "py:truediv", "py:eq", "np:absolute", "np:square", "np:sqrt", "np:cbrt", "np:power", "np:negative",
                                "np:add", "np:subtract", "np:matmul", "np:sum", "np:count_nonzero", "np:isclose", "np:allclose", "ak:sum", "ak:count",
                                "mixed:add", "mixed:subtract", "mixed:dot", "mixed:deltaphi", "mixed:isclose"))
+            if rng.random() < 0.12:
+                # closeness predicates against a *slightly* different partner (tolerance formulas matter there)
+                st_c = {"s": "op", "name": rng.choice(("close:isclose", "close:allclose", "close:np.isclose", "close:np.allclose")),
+                        "eps": rng.choice((1e-9, 3e-6, 8e-6, 1.2e-5, 3e-5, 1e-3)), "kw": {}}
+                if rng.random() < 0.4:
+                    st_c["kw"] = {"rtol": rng.choice((1e-7, 1e-5, 1e-3)), "atol": rng.choice((0.0, 1e-8, 1e-4))}
+                steps.append(st_c)
+                continue
             if name.startswith("mixed:"):
                 st_w = {g: C.value(rng, g) for g in gnames}
                 steps.append({"s": "op", "name": name, "w": st_w, "wm": C.spell(rng, sys_, True)})
@@ -394,10 +409,23 @@ def run_case(case, vector):
                     viol.append(_viol("to-synonym-differs", i, st, f"{m}({kwm}): {_short(rm[1])} vs {g}({kwg}): {_short(rmg[1])}", be))
         elif s == "op":
             name = st["name"]
-            if name.startswith(("py:", "np:")):
+            if ":" in name:
                 import operator as _op
 
-                kind_, fn_ = name.split(":")
+                kind_, fn_ = name.split(":", 1)
+                if kind_ == "close":
+                    if fn_.startswith("np.") and be not in ("np", "obj"):
+                        continue   # vector does not overload numpy.isclose/allclose for Awkward or SymPy: not its behaviour
+                    g2 = _call(lambda: Gv.scale(1.0 + st["eps"]))
+                    m2 = _call(lambda: Mv.scale(1.0 + st["eps"]))
+                    if g2[0] == "ok" and m2[0] == "ok":
+                        if fn_.startswith("np."):
+                            fcl = getattr(numpy, fn_[3:])
+                            rg, rm = twin_call(i, lambda: fcl(Gv, g2[1], **st["kw"]), lambda: fcl(Mv, m2[1], **st["kw"]))
+                        else:
+                            rg, rm = twin_call(i, lambda: getattr(Gv, fn_)(g2[1], **st["kw"]), lambda: getattr(Mv, fn_)(m2[1], **st["kw"]))
+                        _both(i, st, rg, rm, viol, be, f"{name} eps={st['eps']} {st['kw']}")
+                    continue
                 if kind_ == "mixed":
                     # the partner is a single vector *object* (another backend) built in both spellings
                     wg = vector.obj(**{g: st["w"][g] for g in gn})
